@@ -29,6 +29,7 @@ def scenarios(tier):
     for layout, adv, per in combos:
         out.append(dict(name=f"others-{layout}-{adv}-p{per}", fn="others", params=dict(layout=layout, adv=adv, per=per, nsteps=3 if q else 4), cost=10))
     # vertical advection switched on (the vertical velocity is one more per-particle forcing array)
+    out.append(dict(name="others-sparse-EF-p1-ibmfield", fn="others", params=dict(layout="sparse", adv="EF", per=1, nsteps=3, degdays=True, rbmax=1), cost=12))
     out.append(dict(name="others-sparse-EF-p1-vertadv", fn="others", params=dict(layout="sparse", adv="EF", per=1, nsteps=2 if q else 3, vertadv=True, rbmax=0 if q else 1), cost=12))
     if not q:
         out.append(dict(name="reorder-sparse-EF", fn="reorder", params=dict(layout="sparse", adv="EF", nsteps=3), cost=10))
@@ -53,7 +54,7 @@ def _files(W, tmp, t_first, uvals):
     romsfile.write(W, tmp / "ocean.nc", gs, fs)
 
 
-def _run(W, tmp, sub, rows, t0, nsteps, uvals, layout="sparse", adv="EF", per=1, kill=None, vertadv=False):
+def _run(W, tmp, sub, rows, t0, nsteps, uvals, layout="sparse", adv="EF", per=1, kill=None, vertadv=False, degdays=False):
     sub.mkdir(exist_ok=True)
     W.table(sub / "r.rls", ["release_time", "X", "Y", "Z"], rows)
     ivars = dict(pid=ovar("i4"), X=ovar("f8"), Y=ovar("f8"), Z=ovar("f8"), temp=ovar("f8"))
@@ -63,6 +64,12 @@ def _run(W, tmp, sub, rows, t0, nsteps, uvals, layout="sparse", adv="EF", per=1,
                       output=dict(filename=str(sub / "out.nc"), output_period=per * DT, instance_variables=ivars, layout=layout))
     cfg["grid"] = dict(module="ladim.ROMS", filename=str(tmp / "ocean.nc"))
     cfg["forcing"] = dict(module="ladim.ROMS", filename=str(tmp / "ocean.nc"), extra_forcing=["temp"])
+    if degdays:
+        # an IBM that reads the temperature through forcing.field() and accumulates it
+        cfg["ibm"]["degdays"] = "temp"
+        cfg["state"]["instance_variables"]["degdays"] = float
+        cfg["state"]["default_values"]["degdays"] = 0
+        cfg["output"]["instance_variables"]["degdays"] = ovar("f8")
     if vertadv:
         cfg["forcing"]["extra_forcing"] = ["temp", "w"]
         cfg["state"]["instance_variables"]["w"] = float
@@ -112,8 +119,8 @@ def others(W, p):
     kflag = W.bool("killflag")
     rowA = [W.dt(T0), xa, 3, za]  # the "other" particle (pid 0): may be killed
     rowB = [W.dt(T0 + rb * DT), xb, W.frac(5, 2), zb]  # the observed particle
-    both = _run(W, tmp, tmp / "both", [rowA, rowB], T0, nsteps, uv, layout, p["adv"], p["per"], kill={kstep: {0: kflag}}, vertadv=p.get("vertadv", False))
-    alone = _run(W, tmp, tmp / "alone", [rowB], T0, nsteps, uv, layout, p["adv"], p["per"], vertadv=p.get("vertadv", False))
+    both = _run(W, tmp, tmp / "both", [rowA, rowB], T0, nsteps, uv, layout, p["adv"], p["per"], kill={kstep: {0: kflag}}, vertadv=p.get("vertadv", False), degdays=p.get("degdays", False))
+    alone = _run(W, tmp, tmp / "alone", [rowB], T0, nsteps, uv, layout, p["adv"], p["per"], vertadv=p.get("vertadv", False), degdays=p.get("degdays", False))
     tb = _tracks(W, both, layout, 2).get(1, [])
     ta = _tracks(W, alone, layout, 1).get(0, [])
     conds = [len(tb) == len(ta)]
